@@ -23,7 +23,31 @@ def unit_kani_l3(tier, prop):
     return kani_l3.run(tier, prop)
 
 
+def unit_kani_l0m(tier, prop):
+    from .units import kani_l0m
+    return kani_l0m.run(tier, prop)
+
+
+def unit_kani_stk(tier, prop):
+    from .units import kani_stk
+    return kani_stk.run(tier, prop)
+
+
+def unit_verus_pipe(tier, prop):
+    from .units import verus_pipe
+    return verus_pipe.run(tier, prop)
+
+
+def unit_scan_c20(tier, prop):
+    from .units import scan_c20
+    return scan_c20.run(tier, prop)
+
+
 UNITS = {
+    "scan_c20": unit_scan_c20,
+    "kani_l0m": unit_kani_l0m,
+    "kani_stk": unit_kani_stk,
+    "verus_pipe": unit_verus_pipe,
     "kani_l3": unit_kani_l3,
     "kani_l0": unit_kani_l0,
     "verus_memory": lambda tier, prop: unit_verus_memory(tier),
@@ -38,15 +62,17 @@ PROP_UNITS = {
     "C05": ["kani_l2"],
     "C06": ["kani_l2", "verus_memory"],
     "C07": ["kani_l0"],
-    "C08": ["verus_memory", "kani_l0"],
-    "C09": ["verus_memory", "kani_l2"],
-    "C10": ["verus_memory"],
+    "C08": ["verus_memory", "kani_l0", "kani_l0m"],
+    "C09": ["verus_memory", "kani_l2", "kani_l0m"],
+    "C10": ["verus_memory", "kani_l0m"],
     "C11": ["kani_l3", "kani_l2"],
     "C12": ["kani_l3"],
     "C13": ["kani_l3", "verus_memory"],
-    "C14": ["kani_l3"],
+    "C14": ["verus_pipe"],
+    "C17": ["kani_stk", "verus_memory"],
     "C18": ["kani_l3", "kani_l2"],
-    "C19": ["kani_l2", "verus_memory", "kani_l0", "kani_l3"],
+    "C19": ["kani_l2", "verus_memory", "kani_l0", "kani_l3", "verus_pipe"],
+    "C20": ["scan_c20"],
 }
 
 
@@ -59,6 +85,8 @@ def merge_info(infos):
         out["trusted_base"] += i.get("trusted_base", [])
         out["assumptions"] += i.get("assumptions", [])
         out["functions_under_contract"] += i.get("functions_under_contract", [])
+        if i.get("explanation"):
+            out["explanation"] += ("%s: %s. " % (name, i["explanation"]))
         for k, v in i.items():
             if k not in out:
                 out.setdefault("unit_details", {}).setdefault(name, {})[k] = v
@@ -75,14 +103,45 @@ def run(prop, tier, seed, t0):
         o, i = UNITS[u](tier, prop)
         obs += o
         infos.append((u, i))
+    # a function the Verus unit could not be generated for (lost anchor) is decided by its bounded Kani stand-in, if any
+    stand_in = {}
+    for o in obs:
+        if o["unit"] == "kani_l0m" and o["status"] in ("bounded-discharged", "failed"):
+            for f in o.get("covers_functions", []):
+                stand_in.setdefault(f, []).append(o["id"])
+    for o in obs:
+        if o["unit"] == "verus_memory" and o["status"] == "undecided" and "lost anchor" in (o.get("detail") or ""):
+            f = o["id"].split("::")[-1]
+            if f in stand_in:
+                o["expected_undecided"] = True
+                o["detail"] += " | decided by the bounded stand-in(s): " + ", ".join(stand_in[f][:4])
+    # bounded stand-ins that duplicate an unbounded result of the same run do not lower the level
+    ok = lambda pred: [o for o in obs if pred(o)] and all(o["status"] == "discharged" for o in obs if pred(o))
+    for o in obs:
+        if o["unit"] == "kani_l0m" and o["status"] == "bounded-discharged":
+            fs = o.get("covers_functions", [])
+            if o.get("harness") == "l0m_typed":
+                red = ok(lambda x: x["id"].startswith("l0|l0t_"))
+            else:
+                red = bool(fs) and all(ok(lambda x, f=f: x["id"] == "verus|memory.rs::" + f) for f in fs)
+            if red:
+                o["redundant_stand_in"] = True
     info = merge_info(infos)
     extra = dict(unit_details=info.pop("unit_details", {}))
+    budget = dict(n=0)
+
     def replay_fn(o):
+        from . import replay
+        budget["n"] += 1
+        if budget["n"] > 3:
+            return dict(replay_note="replay skipped: at most three violations per run are replayed (each costs a solver run)")
         if o.get("unit") == "kani_l2" and o["id"].startswith("l2|"):
-            from . import replay
             return replay.replay_l2_obligation(o, tier)
+        if o.get("unit") in ("kani_l0", "kani_l0m", "kani_l3", "kani_stk") and o.get("harness"):
+            return replay.replay_generic_obligation(o)
         return {}
-    return core.finish(prop, tier, seed, obs, t0, info, extra_cov=extra, replay_fn=replay_fn)
+    cat = CLAIMS.get(prop, {}).get("category", "proof")
+    return core.finish(prop, tier, seed, obs, t0, info, level_if_all=(cat if cat != "other" else "other"), extra_cov=extra, replay_fn=replay_fn)
 
 
 def replay(prop, path):
@@ -144,17 +203,23 @@ CLAIMS = {
               "Order, at-most-once, short-circuit on Handled/stop, error propagation, running flag, refusal of nested registration, registration after failures, persistence of modifications, per-mnemonic lookup; bracketing and RIP pre-advance proved on step().", L3_NOTE),
     "C13": _c("kani+verus", "proof", "5/C13", "Kani: real brk handler closure per call over every heap state earlier calls can produce (abstract heap) + Verus contracts of resize / anywhere allocation",
               "brk(0) returns the current break; brk(p >= base) requests exactly resize(base, p - base), on success break == p == RAX; failures leave the break; first call allocates a fresh area. Persistence of bytes and disjointness follow from the Verus contracts of mem_resize_section / mem_init_zero_anywhere.", L3_NOTE),
-    "C14": _c("kani", "other", "5/C14", "Kani: real pipe/read/write handler closures on a bounded history (one pipe, write <= 3 bytes, two reads <= 4)",
-              "FIFO order without loss or duplication across a partial read, read count = min(requested, available), untouched guest bytes, foreign descriptors left to other hooks. Bounded stand-in (never counted as proof); descriptor numbers are fixed by the harness (opaque keys).", L3_NOTE),
     "C18": _c("kani", "other", "5/C18", "Kani: real add_trace for an arbitrary last entry (complete); trace/call-stack requests of every control form at L2; renderers bounded",
               "A trace event is requested iff control is transferred, with kind, target, source and RIP as the recorder expects; add_trace appends/merges/levels correctly and never fails; CALL pushes / RET pops the call stack; trace() and call_stack() return Ok for <= 2 entries incl. negative levels.", L3_NOTE),
     "C19": _c("kani+verus", "other", "5/C19", "panic-freedom obligations harvested from every unit (Kani built-in checks on the real text, Verus overflow/bounds VCs); rejected forms return Err",
               "After decode (iced, trusted), every decoder-producible instruction of every Code of the supported mnemonics runs without panic/overflow/bounds failure in the real text, unsupported/unimplemented forms return Err and change nothing, the step skeleton, hooks, trace recorder and memory accessors are panic-free. Termination: no loops above the memory layer except execute().", L2_NOTE),
 }
 
+CLAIMS["C14"] = _c("verus", "proof", "10.10", "Verus: real bodies of the pipe(), read() and write() handler closures under contract (unbounded sizes) + inductive FIFO lemma over all call histories",
+                   "Each handler closure of register_pipe (real text, cut out on every run) satisfies: calls that are not its syscall or not on a pipe end return Unhandled and change nothing; read returns min(count, buffered) bytes - the head of the buffer, in order - stores exactly them, sets RAX, and removes exactly them; write appends exactly the count guest bytes to the buffer of its pipe and to no other; pipe() creates an empty pipe on two unused descriptors and touches no existing pipe; the three maps stay a bijection of write and read ends with one buffer per read end. A lemma over these contracts shows for every finite history of calls on any descriptors: bytes written == bytes read ++ bytes buffered, per pipe. The hook chain's Handled/Unhandled protocol is C12.",
+                   "contracts of the register / memory accessors and of the std Entry chain are trusted here (proved / listed in the other units); registration glue not covered")
+CLAIMS["C17"] = _c("kani+verus", "other", "5/C17, 10.9", "Kani: real init_stack_program_start / init_stack text against the contracts of the allocators and stores + Verus: init_stack and the 'anywhere' allocators",
+                   "The real text of init_stack_program_start(_impl) and init_stack runs against the proved contracts of mem_init_anywhere / mem_init_zero_named / mem_write_64 / reg_write_64: it fails only if an allocator fails, RSP is 16-byte aligned, popping from RSP yields argc, argv pointers in order, NULL, envp pointers in order, NULL, every pointer refers to a NUL-terminated copy in a read+write string area, nothing outside the fresh stack area is stored to, the frame lies inside the stack area and the requested size remains below RSP up to 32 bytes. Bounded in list and string lengths (never counted as proof); stack size, addresses, image layout and string placement symbolic. Verus proves init_stack and the allocators unbounded.",
+                   "argc + envc <= 3 with concrete list lengths per harness, strings 0..2 bytes, stack size <= 2^48 (empty lists) / <= 4095 (with strings), placement search <= 4 candidates")
+CLAIMS["C20"] = _c("scan", "other", "5/C20", "corollary of the functional postconditions of the other units + whitelist-based source scan for hidden inputs (RNG, clocks, unordered iteration, addresses)",
+                   "No contract can state determinism directly; it follows from every discharged postcondition being an equality with a pure function of the explicit inputs. This check decides the remaining side condition - no hidden input in the text outside the contracts - by a syntactic scan with a whitelist keyed by (file, function, pattern). Error texts are compared structurally only.",
+                   "syntactic scan; format!/Display of std and iced trusted to be deterministic; cross-process claim assumes deterministic HashMap lookups")
+
 NOT_APPLICABLE = {
     "C15": "not claimed yet: the loader iterates over types of the external `elf` crate whose parser cannot be brought under either verifier within the session; see DESIGN.md 10.8",
     "C16": "not claimed: 'all byte strings' is decided by the `elf` crate's parser (a trusted dependency outside the contract boundary); the loader's own arithmetic is covered only where the memory contracts apply (DESIGN.md 10.8)",
-    "C17": "not claimed yet: bounded Kani unit for init_stack_program_start_impl not built in this session (init_stack itself is proved in the Verus unit); DESIGN.md 10.8",
-    "C20": "not claimed yet: determinism is a corollary of the functional postconditions plus a source scan that is not built yet (DESIGN.md 5/C20)",
 }
